@@ -799,3 +799,142 @@ Definition op_wfb (h : handle) (t : table) (o : op) : bool :=
 
 Definition batched_wfb (h : handle) (t : table) (fs : list filter) : bool :=
   table_ok t && forallb (fun f => forallb (filter_ptrs_okb f) (handle_limits h)) fs.
+
+(** * C10: the batched fetch and the matcher *)
+
+(** ** What Scanner.Scan leaves in a struct field of type [ty] for a stored value *)
+Definition wrap_kind (k : ikind) (z : Z) : Z :=
+  let s (w : Z) := let m := (z mod 2 ^ w)%Z in if (m <? 2 ^ (w - 1))%Z then m else (m - 2 ^ w)%Z in
+  let u (w : Z) := (z mod 2 ^ w)%Z in
+  match k with
+  | KI | KI64 => s 64%Z | KI8 => s 8%Z | KI16 => s 16%Z | KI32 => s 32%Z
+  | KU | KU64 => u 64%Z | KU8 => u 8%Z | KU16 => u 16%Z | KU32 => u 32%Z
+  end.
+
+Fixpoint field_value (ty : gty) (d : dval) : goval :=
+  match ty with
+  | TyPtr t' => match d with DNull => GNilPtr t' | _ => GPtr 0 (field_value t' d) end
+  | TyInt k n => match d with
+                 | DInt z => GInt k n (wrap_kind k z)
+                 | DBool b => GInt k n (if b then 1 else 0)
+                 | _ => GInt k n 0
+                 end
+  | TyStr n => match d with DStr s | DBytes s => GStr n s | _ => GStr n "" end
+  | TyBool => match d with DBool b => GBool b | DInt z => GBool (negb (Z.eqb z 0)) | _ => GBool false end
+  | TyFloat => match d with DFloat q => GFloat q | DInt z => GFloat (4 * z) | _ => GFloat 0 end
+  | TyBytes => match d with DBytes s | DStr s => GBytes s | _ => GBytes "" end
+  end.
+
+(** coerce (sqlgen/reflect.go): nil pointers become nil, pointers are dereferenced once. *)
+Definition coerce (v : goval) : goval :=
+  match v with GNilPtr _ => GNil | GPtr _ v' => v' | _ => v end.
+
+(** internal.MakeHashable on one element: []byte becomes string. *)
+Definition hashable (v : goval) : goval := match v with GBytes s => GStr "" s | _ => v end.
+
+(** The matcher: caller [f] receives a fetched row when, for every column of its filter, the coerced
+    filter value and the coerced struct field are equal as Go interface values (map lookup on the tuple).
+    The conjunction is taken over the table's columns that the filter mentions; for filters whose columns
+    are all known (the others were refused before) that is the conjunction over the filter's keys. *)
+Definition matcher_matches (t : table) (f : filter) (r : drow) : bool :=
+  forallb (fun c => match lookup (c_name c) f with
+                    | Some fv => go_eqb (hashable (coerce fv))
+                                        (hashable (coerce (field_value (c_ty c) (cell r (c_name c)))))
+                    | None => true
+                    end) (t_cols t).
+
+Definition batch_wclause (t : table) (fs : list filter) : wclause :=
+  match make_batch_query (map (dfilter_of t) fs) with Some gs => WBatch gs | None => WBatch [] end.
+
+(** One invocation of the batch function on callers [fs]: rows fetched by the combined statement, handed
+    to each caller the matcher associates them with. *)
+Definition batched_results (t : table) (fs : list filter) (contents : list drow) : list (list drow) :=
+  let fetched := select_rows (batch_wclause t fs) contents in
+  map (fun f => List.filter (matcher_matches t f) fetched) fs.
+
+(** The same query on its own. *)
+Definition unbatched_result (t : table) (f : filter) (contents : list drow) : list drow :=
+  select_rows (WSimple (dfilter_of t f)) contents.
+
+(** Before C10-fix-1: raw filter values went to the driver through database/sql's default converter and
+    NULLs were compared with [=] / [IN]. *)
+Definition raw_dfilter (f : filter) : dfilter := map (fun kv => (fst kv, default_conv (snd kv))) f.
+
+Definition batched_results_orig (t : table) (fs : list filter) (contents : list drow) : list (list drow) :=
+  let fetched := match make_batch_query (map raw_dfilter fs) with
+                 | Some gs => List.filter (fun r => is_tt (eval_batch_orig gs r)) contents
+                 | None => contents
+                 end in
+  map (fun f => List.filter (matcher_matches t f) fetched) fs.
+
+(** ** Domain of the transparency theorem *)
+Definition base_ty (ty : gty) : gty := match ty with TyPtr t => t | _ => ty end.
+Definition is_ptr_ty (ty : gty) : bool := match ty with TyPtr _ => true | _ => false end.
+
+Definition kind_in_range (k : ikind) (z : Z) : bool :=
+  let r (lo hi : Z) := (lo <=? z)%Z && (z <? hi)%Z in
+  match k with
+  | KI | KI64 => r (- 2 ^ 63)%Z (2 ^ 63)%Z
+  | KI8 => r (-128)%Z 128%Z | KI16 => r (-32768)%Z 32768%Z | KI32 => r (- 2 ^ 31)%Z (2 ^ 31)%Z
+  | KU | KU64 => r 0%Z (2 ^ 63)%Z      (* unsigned values above 2^63-1 are outside the model *)
+  | KU8 => r 0%Z 256%Z | KU16 => r 0%Z 65536%Z | KU32 => r 0%Z (2 ^ 32)%Z
+  end.
+
+Definition scalar_typed (bt : gty) (v : goval) : bool :=
+  match bt, v with
+  | TyInt k n, GInt k' n' z => ikind_eqb k k' && String.eqb n n' && kind_in_range k z
+  | TyStr n, GStr n' _ => String.eqb n n'
+  | TyBool, GBool _ => true
+  | TyFloat, GFloat _ => true
+  | TyBytes, GBytes _ => true
+  | _, _ => false
+  end.
+
+(** The filter value has exactly the Go type of the column's struct field (or is a pointer to it, or nil
+    for a pointer column).  Everything else is the recorded defect class [c10-batch-matcher-go-type]:
+    the matcher compares Go interface values, so int(10) never equals the int64 field holding 10. *)
+Definition exactly_typed (c : column) (fv : goval) : bool :=
+  match fv with
+  | GNil | GNilPtr _ => negb (c_implicitnull c)
+  | GPtr _ v => scalar_typed (base_ty (c_ty c)) v && negb (c_implicitnull c && is_zero v)
+  | v => scalar_typed (base_ty (c_ty c)) v
+  end.
+
+Definition filter_exactly_typed (t : table) (f : filter) : bool :=
+  forallb (fun c => match lookup (c_name c) f with Some fv => exactly_typed c fv | None => true end) (t_cols t).
+
+Definition dval_is_zero (d : dval) : bool :=
+  match d with
+  | DInt z => Z.eqb z 0 | DFloat q => Z.eqb q 0 | DStr s | DBytes s => String.eqb s "" | DBool b => negb b | DNull => true
+  end.
+
+(** A stored value the column's struct field represents faithfully: of the column's class and range,
+    NULL only in pointer or implicitnull columns, no zero value in an implicitnull column (sqlgen writes
+    NULL for it). *)
+Definition representable (c : column) (d : dval) : bool :=
+  match d with
+  | DNull => is_ptr_ty (c_ty c) || c_implicitnull c
+  | _ => negb (c_implicitnull c && dval_is_zero d)
+         && match base_ty (c_ty c), d with
+            | TyInt k _, DInt z => kind_in_range k z
+            | TyStr _, DStr _ => true
+            | TyBool, DInt z => Z.eqb z 0 || Z.eqb z 1
+            | TyFloat, DFloat _ => true
+            | TyBytes, DBytes _ => true
+            | _, _ => false
+            end
+  end.
+
+Definition row_representable (t : table) (r : drow) : bool :=
+  forallb (fun c => representable c (cell r (c_name c))) (t_cols t).
+
+(** Column descriptors sqlgen accepts: implicitnull is refused on pointer fields, pointers are one level. *)
+Definition is_bytes_ty (ty : gty) : bool := match ty with TyBytes => true | _ => false end.
+(** ([]byte columns: a NULL scans into a nil slice, which this model does not have; they are taken to be
+    NOT NULL and without implicitnull.) *)
+Definition column_ok (c : column) : bool :=
+  negb (c_implicitnull c && (is_ptr_ty (c_ty c) || is_bytes_ty (c_ty c)))
+  && negb (is_ptr_ty (base_ty (c_ty c))).
+Definition columns_ok (t : table) : bool := forallb column_ok (t_cols t).
+
+Definition filter_known (t : table) (f : filter) : bool := all_known (t_cols t) f.
